@@ -128,11 +128,11 @@ const TS_MIN: i64 = crate::c07::TS_MIN; const TS_MAX: i64 = crate::c07::TS_MAX;
 fn mutations() -> Vec<(&'static str, Vec<fn(&mut Case)>)> {
   vec![
     ("nonce", vec![|c| { c.nonce = Some(1); c.o_nonce = Some(1); }, |c| { c.nonce = Some(1); c.o_nonce = Some(2); }, |c| c.nonce = Some(1), |c| c.o_nonce = Some(1)]),
-    ("kid", vec![|c| c.kid = None, |c| c.kid = Some((0, None, Some(0))), |c| c.kid = Some((1, None, Some(0))), |c| c.kid = Some((2, None, Some(0))), |c| c.kid = Some((1, Some(1), Some(0))), |c| c.kid = Some((0, Some(1), None)), |c| c.kid = Some((0, None, None)), |c| c.kid = Some((1, None, None)),
+    ("kid", vec![|c| { c.kid = Some((0, Some(1), Some(11))); c.sigkey = 17; }, |c| { c.kid = Some((0, Some(1), Some(12))); c.sigkey = 18; }, |c| { c.kid = Some((0, None, Some(12))); c.sigkey = 18; }, |c| c.kid = None, |c| c.kid = Some((0, None, Some(0))), |c| c.kid = Some((1, None, Some(0))), |c| c.kid = Some((2, None, Some(0))), |c| c.kid = Some((1, Some(1), Some(0))), |c| c.kid = Some((0, Some(1), None)), |c| c.kid = Some((0, None, None)), |c| c.kid = Some((1, None, None)),
       |c| c.kid = Some((0, Some(2), Some(0))), |c| c.kid = Some((0, Some(1), Some(5))), |c| { c.kid = Some((0, Some(1), Some(1))); c.sigkey = 11; }, |c| c.kid = Some((0, Some(1), Some(2))), |c| { c.kid = Some((0, None, Some(3))); c.sigkey = 13; },
       |c| { c.kid = Some((0, None, Some(4))); c.sigkey = 14; }, |c| { c.kid = Some((0, Some(2), Some(4))); c.sigkey = 14; }, |c| { c.kid = Some((0, Some(1), Some(4))); c.sigkey = 14; }, |c| c.kid = Some((0, Some(1), Some(6))), |c| { c.kid = Some((0, Some(2), Some(1))); c.sigkey = 21; }, |c| { c.kid = Some((0, None, Some(1))); c.sigkey = 21; }, |c| { c.kid = Some((0, None, Some(1))); c.sigkey = 11; }]),
     ("method-id", vec![|c| c.method_id = Some(U { d: 1, r: 0, f: 0 }), |c| c.method_id = Some(U { d: 1, r: 0, f: 1 }), |c| { c.method_id = Some(U { d: 1, r: 0, f: 1 }); c.sigkey = 11; }, |c| { c.method_id = Some(U { d: 1, r: 0, f: 0 }); c.kid = None; }, |c| c.method_id = Some(U { d: 2, r: 0, f: 0 }), |c| { c.method_id = Some(U { d: 2, r: 0, f: 4 }); c.sigkey = 14; }]),
-    ("scope", vec![|c| c.scope = 0, |c| c.scope = 1, |c| c.scope = 2, |c| c.scope = 3, |c| c.scope = 5]),
+    ("scope", vec![|c| c.scope = 0, |c| c.scope = 1, |c| c.scope = 2, |c| c.scope = 3, |c| c.scope = 4, |c| c.scope = 5]),
     ("signature", vec![|c| c.sigkey = 11, |c| c.sigkey = 99]),
     ("claims", vec![|c| c.claims_ok = false, |c| { c.claims_ok = false; c.bad = 1; }, |c| { c.claims_ok = false; c.bad = 2; }, |c| { c.claims_ok = false; c.bad = 3; }]),
     ("iss", vec![|c| c.pc.iss = 2, |c| c.pc.iss = 3, |c| c.pc.iss = 4]),
